@@ -108,7 +108,11 @@ impl Scheduler {
     }
 
     fn tick(thread: &mut Thread, execution: &mut Execution) -> VecDeque<QueuedSpawn> {
-        let mut queued_spawn = VecDeque::new();
+        // If the thread panics, closures of threads that were spawned but not
+        // yet started are leaked rather than dropped: they may own loom
+        // objects, whose `Drop` needs the execution context that is gone by
+        // the time the queue would be dropped (a panic while panicking).
+        let mut queued_spawn = std::mem::ManuallyDrop::new(VecDeque::new());
         let state = RefCell::new(State {
             execution,
             queued_spawn: &mut queued_spawn,
@@ -117,7 +121,7 @@ impl Scheduler {
         STATE.set(unsafe { transmute_lt(&state) }, || {
             thread.resume();
         });
-        queued_spawn
+        std::mem::ManuallyDrop::into_inner(queued_spawn)
     }
 
     fn with_state<F, R>(f: F) -> R
